@@ -14,7 +14,7 @@ if [ -n "$BO" ]; then echo "BUILD-FAILED (invalid mutant): $BO"; rm -rf "$S"; ex
 if [ "${MUTANT_TESTS:-0}" = 1 ]; then /verif/tools/baseline.sh "$S/repo"; fi
 rc=0
 for id in "$@"; do
-  out=$(/verif/bin/midiverif check "$id" --repo "$S/repo" --verif "$S/verif" --tier "${TIER:-quick}" 2>&1); r=$?
+  out=$(${MIDIVERIF:-/verif/bin/midiverif} check "$id" --repo "$S/repo" --verif "$S/verif" --tier "${TIER:-quick}" 2>&1); r=$?
   if [ $r -ne 0 ]; then echo "CAUGHT by $id:"; echo "$out" | grep -A1 '^VIOLATION' | grep -v '^--' | head -${LINES_MAX:-6}; else echo "MISSED by $id"; rc=1; fi
 done
 rm -rf "$S"
